@@ -179,17 +179,17 @@ def build_login(work, vectors, tier, rng, n_random, cap):
             for t in targets:
                 meta = {'family': 'login', 'version': version, 'dir': d, 'object': obj, 'target': t if t in ('enum', 'initial') else 'typed',
                         'crypt': 'plain', 'klass': 'canonical', 'base': v['id'], 'hex': v['hex'], 'n': n}
-                work.add(f"{v['id']}|{t}|rd", ['L.rd', version, d, t, v['hex'], ';'.join(scheds), 0], {**meta, 'op': 'read', 'scheds': scheds})
-                work.add(f"{v['id']}|{t}|wr", ['L.wr', version, d, t, v['hex'], ';'.join(wscheds), 0], {**meta, 'op': 'write', 'scheds': wscheds})
+                work.add(f"{v['id']}|{t}|rd", ['L.rd', version, d, t, v['hex'], ';'.join(scheds), len(scheds) - 1], {**meta, 'op': 'read', 'nsched': len(scheds)})
+                work.add(f"{v['id']}|{t}|wr", ['L.wr', version, d, t, v['hex'], ';'.join(wscheds), len(wscheds) - 1], {**meta, 'op': 'write', 'nsched': len(wscheds)})
             # malformed / truncated variants
-            nv = 3 if tier == 'quick' else 12
+            nv = 3 if tier == 'quick' else 32
             for klass, suffix, f in login_variants(v, rng, tier):
                 m = len(f)
                 sc = (list(compositions(m)) if m <= 8 else ['w', f'1x{m}', str(m // 2), f'{m - 1}']) + [random_schedule(m, rng) for _ in range(nv)]
                 for t in targets:
                     meta = {'family': 'login', 'version': version, 'dir': d, 'object': obj, 'target': t if t in ('enum', 'initial') else 'typed',
-                            'crypt': 'plain', 'klass': klass, 'base': v['id'], 'variant': suffix, 'hex': f.hex(), 'n': m, 'op': 'read', 'scheds': sc}
-                    work.add(f"{v['id']}!{suffix}|{t}|rd", ['L.rd', version, d, t, f.hex(), ';'.join(sc), 0], meta)
+                            'crypt': 'plain', 'klass': klass, 'base': v['id'], 'variant': suffix, 'hex': f.hex(), 'n': m, 'op': 'read', 'nsched': len(sc)}
+                    work.add(f"{v['id']}!{suffix}|{t}|rd", ['L.rd', version, d, t, f.hex(), ';'.join(sc), len(sc) - 1], meta)
 
 
 def write_schedules(n, rng, k):
@@ -201,7 +201,7 @@ def write_schedules(n, rng, k):
 
 
 def build_world(work, corpus, vectors, names, tier, rng, n_random, cap):
-    n_extra = 40 if tier == 'quick' else 400
+    n_extra = 40 if tier == 'quick' else 1500
     groups = {}
     for v in vectors:
         if len(v['hex']) // 2 <= 6000:
@@ -240,26 +240,26 @@ def build_world(work, corpus, vectors, names, tier, rng, n_random, cap):
                     meta = {'family': 'world', 'version': version, 'dir': d, 'object': v['object'], 'target': 'enum' if t == 'enum' else 'typed',
                             'crypt': crypt, 'klass': 'canonical', 'base': v['id'], 'hex': v['hex'] if n <= 4096 else None, 'n': n,
                             'large_header': version == 'wrath' and d == 'server' and v['hdr'] == 5}
-                    work.add(f"{v['id']}|{t}|{crypt}|rd", ['W.rd', version, d, t, ccol, v['hdr'], v['hex'], ';'.join(scheds), 0],
-                             {**meta, 'op': 'read', 'scheds': scheds})
+                    work.add(f"{v['id']}|{t}|{crypt}|rd", ['W.rd', version, d, t, ccol, v['hdr'], v['hex'], ';'.join(scheds), len(scheds) - 1],
+                             {**meta, 'op': 'read', 'nsched': len(scheds)})
                     ws = write_schedules(n, rng, 2 if tier == 'quick' else 10)
                     if big:
                         ws = ws[:8]
-                    work.add(f"{v['id']}|{t}|{crypt}|wr", ['W.wr', version, d, t, ccol, v['hex'], ';'.join(ws), 0], {**meta, 'op': 'write', 'scheds': ws})
+                    work.add(f"{v['id']}|{t}|{crypt}|wr", ['W.wr', version, d, t, ccol, v['hex'], ';'.join(ws), len(ws) - 1], {**meta, 'op': 'write', 'nsched': len(ws)})
             # malformed / truncated variants for the typed sample and the boundary frames
             if len(targets) > 1 and not big:
                 fm = v if v.get('fmap') else {**v, 'fmap': []}
                 for klass, suffix, f in world_variants(fm, rng, tier):
                     m = len(f)
                     sc = (list(compositions(m)) if m <= 7 else ['w', f'1x{m}', str(v['hdr']), str(max(1, v['hdr'] - 1)), f'{m - 1}']) + \
-                        [random_schedule(m, rng) for _ in range(2 if tier == 'quick' else 8)]
+                        [random_schedule(m, rng) for _ in range(2 if tier == 'quick' else 24)]
                     for t in targets:
                         for crypt in ('plain', 'enc'):
                             ccol = 'plain' if crypt == 'plain' else 'enc:' + KEY
                             meta = {'family': 'world', 'version': version, 'dir': d, 'object': v['object'], 'target': 'enum' if t == 'enum' else 'typed',
                                     'crypt': crypt, 'klass': klass, 'base': v['id'], 'variant': suffix, 'hex': f.hex() if m <= 4096 else None, 'n': m,
-                                    'op': 'read', 'scheds': sc, 'large_header': False}
-                            work.add(f"{v['id']}!{suffix}|{t}|{crypt}|rd", ['W.rd', version, d, t, ccol, v['hdr'], f.hex(), ';'.join(sc), 0], meta)
+                                    'op': 'read', 'nsched': len(sc), 'large_header': False}
+                            work.add(f"{v['id']}!{suffix}|{t}|{crypt}|rd", ['W.rd', version, d, t, ccol, v['hdr'], f.hex(), ';'.join(sc), len(sc) - 1], meta)
 
 
 # ------------------------------------------------------------------------------------------------
@@ -268,13 +268,19 @@ def build_world(work, corpus, vectors, names, tier, rng, n_random, cap):
 ERR_KEYS = ('err_kind', 'err_value', 'err_enum', 'io_kind', 'err_size')
 
 
+def same_panic(a, b):
+    """the variants are separate copies of the same code: the same assertion / unwrap sits on different lines of the same file"""
+    fa, fb = str(a.get('panic_at')).rsplit(':', 1)[0], str(b.get('panic_at')).rsplit(':', 1)[0]
+    return fa == fb and a.get('panic_msg') == b.get('panic_msg')
+
+
 def compare_read(sync, out):
     """the blocking reader's observation vs one async observation -> None or (problem, detail)"""
     sr, r = sync.get('result'), out.get('result')
     if r in ('stalled', 'runaway'):
         return r, f'async future {r} after {out.get("consumed")} bytes'
     if sr == 'panic' or r == 'panic':
-        if sr == r and sync.get('panic_at') == out.get('panic_at'):
+        if sr == r and same_panic(sync, out):
             return None
         return 'panic-differs', f'blocking: {sr} {sync.get("panic_at") or ""}; async: {r} {out.get("panic_at") or ""}'
     if sr != r:
@@ -306,7 +312,7 @@ def compare_write(sync, out):
     if r in ('stalled', 'runaway'):
         return r, f'async write future {r} after {len(out.get("out") or "") // 2} bytes'
     if sr == 'panic' or r == 'panic':
-        if sr == r and sync.get('panic_at') == out.get('panic_at'):
+        if sr == r and same_panic(sync, out):
             return None
         return 'panic-differs', f'blocking: {sr} {sync.get("panic_at") or ""}; async: {r} {out.get("panic_at") or ""}'
     if sr != r:
@@ -341,7 +347,8 @@ def judge(chk, rid, row, meta, e, totals):
         return 0
     sync = e.get('sync') or {}
     bad = 0
-    nsched = len(meta['scheds'])
+    scheds = str(row[-2]).split(';')
+    nsched = len(scheds)
     for lib in ('tokio', 'astd'):
         a = e.get(lib) or {}
         if a.get('n') != nsched or sum(o.get('n', 0) for o in a.get('outs') or []) != nsched:
@@ -359,15 +366,16 @@ def judge(chk, rid, row, meta, e, totals):
                 chk.count(f'{kind}:agree', o['n'])
                 continue
             bad += 1
-            sched = meta['scheds'][o['first']]
+            sched = scheds[o['first']]
             obs = {'check': op, 'family': meta['family'], 'version': meta['version'], 'dir': meta['dir'], 'object': meta['object'],
                    'target': meta['target'], 'crypt': meta['crypt'], 'input': meta['klass'], 'lib': lib, 'problem': why[0],
                    'blocking': str(sync.get('result')) + (':' + str(sync.get('err_kind')) if sync.get('err_kind') else ''),
                    'async': str(o.get('result')) + (':' + str(o.get('err_kind')) if o.get('err_kind') else ''),
-                   'only_when_chunked': o['n'] < nsched}
+                   'only_when_chunked': meta.get('_only_when_chunked', o['n'] < nsched)}
             rrow = list(row)
             rrow[-2] = sched
-            r = chk.violation(obs, {'row': rrow, 'meta': {k: x for k, x in meta.items() if k != 'scheds'}, 'schedule': sched,
+            rrow[-1] = 0
+            r = chk.violation(obs, {'row': rrow, 'meta': meta, 'schedule': sched,
                                     'schedules_with_this_outcome': o['n'], 'schedules_run': nsched, 'detail': why[1],
                                     'blocking': sync, 'async': o,
                                     'how': 'python3 check.py C06 --replay <this file>  (re-runs row through harness/async_driver with the poll trace on)'})
@@ -392,7 +400,7 @@ def run(tier, replay=None):
     if replay:
         rp = json.load(open(replay))
         row, meta = rp['row'], dict(rp['meta'])
-        meta['scheds'] = [rp['schedule']]
+        meta['_only_when_chunked'] = rp['observation'].get('only_when_chunked')
         ev = common.run_driver(binary, [['replay'] + row[1:]], 'c06r', workers=1)
         e = ev.get('replay')
         if e is None:
@@ -406,7 +414,7 @@ def run(tier, replay=None):
 
     n_random = 200 if tier == 'quick' else 5000
     corpus, sv, lvec, lstats = V.build(tier, k=3 if tier == 'quick' else 12, envs=LOGIN_ENVS)
-    _c, _sv, wvec, wstats = V.build(tier, k=1 if tier == 'quick' else 2, envs=WORLD_ENVS)
+    _c, _sv, wvec, wstats = V.build(tier, k=1 if tier == 'quick' else 3, envs=WORLD_ENVS)
     lvec, wvec = uniq(lvec), uniq(wvec)
     # which world messages have typed entry points in this build of the driver
     nrows = [[f'names.{x}.{d}', 'W.names', x, d] for x in ('vanilla', 'tbc', 'wrath') for d in ('client', 'server')]
@@ -421,11 +429,11 @@ def run(tier, replay=None):
     build_login(work, lvec, tier, rng, n_random, 96 if tier == 'quick' else 400)
     build_world(work, corpus, wvec, names, tier, rng, n_random, 48 if tier == 'quick' else 160)
     rng.shuffle(work.rows)
-    common.log(f'[c06] {len(work.rows)} driver operations, {sum(len(m["scheds"]) for m in work.meta.values())} (input, schedule) pairs x 2 async libraries')
+    common.log(f'[c06] {len(work.rows)} driver operations, {sum(m["nsched"] for m in work.meta.values())} (input, schedule) pairs x 2 async libraries')
     ev = common.run_driver(binary, work.rows, 'c06', timeout=120, budget=1 << 30)
     missing = 0
     distinct_scheds = set()
-    sample_budget = {'login': 2, 'world': 3}
+    sample_budget = {('login', True): 2, ('world', True): 1, ('login', False): 1, ('world', False): 1}
     for row in work.rows:
         rid = row[0]
         meta = work.meta[rid]
@@ -436,18 +444,20 @@ def run(tier, replay=None):
         bad = judge(chk, rid, row, meta, e, totals)
         if e.get('result') != 'done':
             continue
-        for s in meta['scheds']:
-            distinct_scheds.add((meta['n'], s))
+        scheds = str(row[-2]).split(';')
+        for s in scheds:
+            distinct_scheds.add(hash((meta['n'], s)))
         if not bad:
-            chunked = any(s != 'w' for s in meta['scheds'])
+            chunked = any(s != 'w' for s in scheds)
             sample = None
-            if chunked and sample_budget.get(meta['family'], 0) > 0 and meta['n'] > 8 and (meta['crypt'] == 'enc' or meta['family'] == 'login') and meta['op'] == 'read':
-                sample_budget[meta['family']] -= 1
+            skind = (meta['family'], meta['klass'] == 'canonical')
+            if chunked and sample_budget.get(skind, 0) > 0 and meta['n'] > 8 and (meta['crypt'] == 'enc' or meta['family'] == 'login') and meta['op'] == 'read':
+                sample_budget[skind] -= 1
                 t = e.get('tokio') or {}
-                sample = {'id': rid, 'api': row[1], 'bytes': meta['n'], 'schedules': len(meta['scheds']), 'first_schedule': meta['scheds'][0][:80],
-                          'poll_trace_of_first_schedule(requested,delivered)': (t.get('trace') or [])[:24],
+                sample = {'id': rid, 'api': row[1], 'bytes': meta['n'], 'schedules': len(scheds), 'last_schedule': scheds[-1][:80],
+                          'tokio_poll_trace_of_last_schedule(requested,delivered|P)': (t.get('trace') or [])[:32],
                           'blocking': {k: str(x)[:60] for k, x in (e.get('sync') or {}).items()},
-                          'tokio_outcomes': len(t.get('outs') or []), 'astd_outcomes': len((e.get('astd') or {}).get('outs') or []),
+                          'distinct_tokio_outcomes': len(t.get('outs') or []), 'distinct_astd_outcomes': len((e.get('astd') or {}).get('outs') or []),
                           'tokio_polls_max': t.get('polls_max'), 'pendings_injected': t.get('pendings')}
             chk.ok(key_of(meta) if chunked else None, sample=sample)
     if missing:
@@ -463,6 +473,6 @@ def run(tier, replay=None):
     chk.assumptions += ['a transport may deliver any positive number of bytes per poll and may return Pending any number of times as long as it wakes the task; '
                         'EOF is a read of 0 bytes; writers may accept any positive prefix of what they are offered',
                         'the number of bytes a failed read_exact consumed before UnexpectedEof is left unspecified by its contract and is not compared',
-                        'equal panics (same location) in all variants on malformed input count as agreement here; they are C03\'s subject',
+                        'equal panics (same file and message; the variants are separate copies of the code) in all variants on malformed input count as agreement here; they are C03\'s subject',
                         'header encryption halves come from wow_srp through its public constructors (fixed key); the driver encrypts the header bytes of the reference frame']
     return chk.finish()
